@@ -168,6 +168,12 @@ func vpC22GenAE(t *rapid.T) vpC22AEGen {
 	case 1:
 		return vpC22AEGen{present: true, values: []string{rapid.SampledFrom([]string{"", " ", "identity", "*", "*;q=0", "identity;q=0", "gzip, deflate, br, zstd", "gzip, deflate, br", "br", "zstd", "deflate", "gzip"}).Draw(t, "aeFixed")}}
 	}
+	if rapid.IntRange(0, 9).Draw(t, "aeSimple") < 4 {
+		// the everyday shape: a plain list of well-known codings in some order
+		perm := rapid.Permutation([]string{"gzip", "deflate", "br", "zstd", "identity"}).Draw(t, "aePerm")
+		k := rapid.IntRange(1, 4).Draw(t, "aeK")
+		return vpC22AEGen{present: true, values: []string{strings.Join(perm[:k], ", ")}}
+	}
 	n := rapid.IntRange(1, 5).Draw(t, "aeN")
 	var sb strings.Builder
 	for i := 0; i < n; i++ {
@@ -460,6 +466,27 @@ func vpC22GenLevel(t *rapid.T, label string) int {
 	return rapid.IntRange(-10, 20).Draw(t, label)
 }
 
+// vpC22GenLevelFor draws a level for one codec; the levels that make the encoder allocate tens of MiB per
+// call (brotli quality >= 10 incl. everything above the range, zstd "better"/"best") stay in the
+// domain but are drawn less often so the case budget is not spent on clearing hash tables.
+func vpC22GenLevelFor(t *rapid.T, codec, label string) int {
+	l := vpC22GenLevel(t, label)
+	if vpC22HeavyLevel(codec, l) && rapid.IntRange(0, 3).Draw(t, label+"KeepHeavy") != 0 {
+		l = rapid.IntRange(-10, 2).Draw(t, label+"Light")
+	}
+	return l
+}
+
+func vpC22HeavyLevel(codec string, l int) bool {
+	switch codec {
+	case "brotli":
+		return l >= 10
+	case "zstd":
+		return l == 3 || l == 4
+	}
+	return false
+}
+
 func vpC22DecoderFor(coding string) *vpC22Codec {
 	for _, c := range vpC22Codecs() {
 		if c.enc == coding {
@@ -492,7 +519,7 @@ func TestVP_C22_Handler(t *testing.T) {
 			w.level = vpC22GenLevel(t, "level")
 		}
 		if w.kind >= 2 {
-			w.brotliLevel = vpC22GenLevel(t, "brotliLevel")
+			w.brotliLevel = vpC22GenLevelFor(t, "brotli", "brotliLevel")
 		}
 		// open finding C22/zstd-level-0-panics: level 0 handed to zstd kills the process; steer away from
 		// (level 0 AND a request that mentions zstd) while it is open
@@ -734,7 +761,10 @@ func TestVP_C22_Codec(t *testing.T) {
 			if i > 0 && len(in) > 0 {
 				in[len(in)/2] ^= byte(i) // distinct inputs per concurrent call
 			}
-			call := &vpC22Call{in: in, level: vpC22GenLevel(t, "lvl"), via: rapid.IntRange(0, 6).Draw(t, "via")}
+			call := &vpC22Call{in: in, level: vpC22GenLevelFor(t, c.name, "lvl"), via: rapid.IntRange(0, 6).Draw(t, "via")}
+			if n > 2 && vpC22HeavyLevel(c.name, call.level) && i >= 2 {
+				call.level = 1 // at most two memory-hungry encoders per concurrent case
+			}
 			if call.via == 6 && c.writeDef == nil {
 				call.via = 5
 			}
